@@ -34,6 +34,17 @@ def handle (op real : String) : Verdict := Id.run do
           | some .backendError => outs := outs ++ ["err:backend"]
           | _ => pure ()
         | _ => pure ()
+      | 's' =>
+        -- a statement on a virtual table is answered by the proxy, with exactly one frame, and nothing reaches a backend
+        -- (which answer - rows, INVALID, another error - is C10's subject)
+        if realTok.startsWith "local:" && !(realTok.any (· == '+')) then outs := outs ++ [realTok]
+        else if (realTok.splitOn "+extra").length > 1 then
+          return { kind := "spec", sig := s!"c{s.clients.length}", key := "C01:two-replies", detail := s!"a statement the proxy answers itself got more than one frame ({realTok}): {op} -> {real}" }
+        else if (realTok.splitOn "+fwd").length > 1 then
+          return { kind := "spec", sig := s!"c{s.clients.length}", key := "C09:answered-and-forwarded", detail := s!"a statement the proxy answered itself also reached a backend ({realTok}): {op} -> {real}" }
+        else if realTok == "none" then
+          return { kind := "spec", sig := s!"c{s.clients.length}", key := "C01:unanswered", detail := s!"a statement on a virtual table was not answered: {op} -> {real}" }
+        else outs := outs ++ ["local:?"]
       | 'q' | 'e' =>
         let i := arg.toNat?.getD 0
         -- KeyspaceOK on the real observation, from the client's own last successful USE
